@@ -176,4 +176,28 @@ theorem limb4_bytes (u : Nat) (hu : u < B) : limb4 u = mapB n4 8 u := by
   rw [red4_bytes, red2_bytes u hu, mapB_comp h1 h2 h1_lt]
   exact mapB_congr _ _ h2h1_n4 8 u
 
+theorem sumB_congr (f g : Nat → Nat) (H : ∀ b, b < 256 → f b = g b) : ∀ k x, sumB f k x = sumB g k x
+  | 0, _ => rfl
+  | k + 1, x => by simp only [sumB]; rw [H _ (Nat.mod_lt _ (by decide)), sumB_congr f g H k]
+
+theorem popcAux_byte (n x : Nat) : Bits.popcAux (n + 8) x = pc8 (x % 256) + Bits.popcAux n (x / 256) := by
+  have e : x / 2 / 2 / 2 / 2 / 2 / 2 / 2 / 2 = x / 256 := by omega
+  simp only [pc8, Bits.popcAux]
+  rw [e]; omega
+
+theorem popc_bytes (x : Nat) : Bits.popc x = sumB pc8 8 x := by
+  unfold Bits.popc
+  rw [show (64 : Nat) = 56 + 8 from rfl, popcAux_byte, show (56 : Nat) = 48 + 8 from rfl, popcAux_byte,
+    show (48 : Nat) = 40 + 8 from rfl, popcAux_byte, show (40 : Nat) = 32 + 8 from rfl, popcAux_byte,
+    show (32 : Nat) = 24 + 8 from rfl, popcAux_byte, show (24 : Nat) = 16 + 8 from rfl, popcAux_byte,
+    show (16 : Nat) = 8 + 8 from rfl, popcAux_byte, show (8 : Nat) = 0 + 8 from rfl, popcAux_byte]
+  simp only [sumB, Bits.popcAux]
+
+theorem n4_sum : ∀ b, b < 256 → n4 b % 16 + n4 b / 16 = pc8 b := by decide +kernel
+
+/-- the sixteen 4-bit fields of `limb4 u` add up to the bit count of u -/
+theorem limb4_sum (u : Nat) (hu : u < B) : sumB (fun b => b % 16 + b / 16) 8 (limb4 u) = Bits.popc u := by
+  rw [limb4_bytes u hu, sumB_comp n4 _ n4_lt, popc_bytes]
+  exact sumB_congr _ _ n4_sum 8 u
+
 end Mpir.Swar
